@@ -265,7 +265,8 @@ func badVal(r *coqfmt.Rng, t reflect.Type) (d *cfgdoc.Doc, text string, ok bool)
 	}
 	switch {
 	case t == tDur:
-		return cfgdoc.NS("soon"), "soon", true
+		w := coqfmt.Pick(r, []string{"soon", "1500", "-20"}) // a quoted number is not a duration either
+		return cfgdoc.NS(w), w, true
 	case t == tTime:
 		return cfgdoc.NT("2021-02-30T00:00:00Z"), "", true
 	case t == tIP:
